@@ -87,10 +87,22 @@ def random_inputs(ctx, n):
         mx = rnd.choice([6, 12, 30])
         mn = rnd.choice([0, 1, 2, 3, 5])
         cfg = {"min": mn, "max": mx, "check": rnd.random() < 0.85, "fix": rnd.random() < 0.4}
-        bits = [rnd.randint(0, 1) for _ in range(rnd.choice([0, 0, 3, 9, 17]))]
+        # preceding noise: random bits, or runs of ones (idle line / abort patterns) of every
+        # length around a flag's six ones, optionally ended by a zero
+        style = rnd.random()
+        if style < 0.45:
+            bits = [rnd.randint(0, 1) for _ in range(rnd.choice([0, 0, 3, 9, 17]))]
+        elif style < 0.8:
+            bits = [rnd.randint(0, 1) for _ in range(rnd.choice([0, 0, 2]))] + [1] * rnd.randint(4, 9) + ([0] if rnd.random() < 0.5 else [])
+        else:
+            bits = [0] * rnd.randint(1, 9)
         frames = []
         nf = rnd.randint(1, 4)
-        if bits:
+        # usually a separate flag closes the noise; sometimes the first frame's own opening flag
+        # follows the noise directly (then only the comparison with the automaton applies: noise
+        # may merge with that flag)
+        single = bool(bits) and rnd.random() < 0.4
+        if bits and not single:
             bits += FLAG
         for i in range(nf):
             ln = rnd.choice([0, 1, 2, 3, mx - 3, mx - 2, mx, mx + 2, rnd.randint(0, mx + 2)])
@@ -114,6 +126,9 @@ def random_inputs(ctx, n):
                 bits += FLAG
             bits += fb + FLAG
             frames.append({"payload": payload, "flips": flips, "shared": shared})
+        if single:
+            for x in frames:
+                x["flips"] = x["flips"] or [-1]     # excludes the scenario from the Python clean-delivery check
         out.append((bits, cfg, frames))
     return out
 
